@@ -58,9 +58,11 @@ def sa_stubs():
 
 def elem_getattr(itp, o, name, *d):
     """`getattr` for interpreted code: real attribute lookup on recording elements, stand-in attributes otherwise"""
-    from .interp import Obj
+    from .interp import Obj, ClassRef
     if isinstance(o, Elem):
         return getattr(o, name)
+    if isinstance(o, ClassRef):
+        return itp._getattr(o, name, None)          # a member of a module / class (getattr(sa_fnc, 'current_date')): resolved like the dotted name
     if isinstance(o, Obj) and name in o.attrs:
         return o.attrs[name]
     if d:
